@@ -113,7 +113,7 @@ CLAIMED = {
              "bit-exact op-sequence differential through the verification hook. The hand-extended lifetimes (osu!/taiko gradual "
              "self-references, the decoder's *const str scratch vector) are proved safe on a heap/ownership/tag model for EVERY "
              "history of moves, uses, unrelated allocations/frees and the drop, and every sequence of lines; that model is "
-             "conditional on 16 facts (field order, no reassignment after new, not Clone, raw-pointer owner, exact shape of "
+             "conditional on 18 facts (field order, no reassignment after new, not Clone, raw-pointer owner, exact shape of "
              "point_split, no other use of the scratch vector) REGENERATED from the source on every run and checked by a "
              "kernel-evaluated theorem, each with a refutation lemma. Supporting, not proof: Miri (Stacked Borrows; Tree Borrows "
              "in the thorough tier) over /verif/miri, and an oracle that rejected slider lines leave no trace. Partial: the "
@@ -134,7 +134,9 @@ CLAIMED = {
              "property's exhaustive small domain (osu 115k cases, taiko 2k, catch 25k) the generated state has the requested "
              "misses and is within 1e-12 of the best distance over all distributions. Mania and sizes beyond the domain: brute "
              "force with exact rationals on the implementation (exhaustive on the small domain in the thorough tier, sampled "
-             "above). No unbounded optimality theorem (partial).",
+             "above). Unbounded theorems for taiko and catch: the exact-rational twin of their search is optimal for EVERY "
+             "object count, target and miss count (nearest_optimal), the float search being tied to the twin per trace. "
+             "No unbounded optimality theorem for osu! and mania (partial).",
         tech="Coq vm_compute exhaustive enumeration over the float model + model/impl correspondence + exact-rational brute force"),
     "C14": dict(
         text="Coq theorems about the one-shot models: counts are those of the first min(n,total) units, osu circles+sliders+spinners "
@@ -151,7 +153,10 @@ CLAIMED = {
              "the number of exported peaks is independent of the skill (any strain functions). Tied to the code by recomputing "
              "catch/mania stars, the osu flashlight rating and the section counts INSIDE Coq from the real strains() output and "
              "comparing with the real attributes (bit-exact up to the sign of zero). Finite/non-negative peaks: direct scan. "
-             "Section-loop termination within the computed fuel is checked per trace, not proved (partial).",
+             "The section loop is proved terminating in binary64 arithmetic (Flocq): for an integral section length in "
+             "[256, 1024] - the source's constants, regenerated on every run - and finite object times within +-2^38 ms "
+             "(evaluated on every trace) the section end stays an exact multiple of the length, the number of sections "
+             "added is explicit, and the fuel the model computes always suffices.",
         tech="Coq proofs over aggregation/section models + in-Coq recomputation from real strain output"),
 }
 
